@@ -282,7 +282,7 @@ class RecvFL2SendRTL( Component ):
   def recv( s, msg ):
     while s.entry is not None:
       greenlet.getcurrent().parent.switch(0)
-    s.entry = msg
+    s.entry = clone_deepcopy( msg ) # the value: the caller may reuse the object
 
   def construct( s, MsgType ):
 
